@@ -253,4 +253,43 @@ theorem verify_iff_recovered (h4 : c.p % 4 = 3) (hall : ∀ P : (W c).Point, (c.
           unfold possiblePublicPairsForSignature; rw [if_pos (by omega)]
         rw [this] at hl; injection hl with hl; subst hl; simp at hm
 
+/-- **completeness of recovery for every verifying key whose nonce point has `x(R) < n`**: if `(z, r, s)` verifies under
+the reduced curve point `Q` and the point `(z/s)•G + (r/s)•Q` the verification looks at is `(x, y)` with `x < n`, then
+`possible_public_pairs_for_signature(z, (r, s))` returns `Q` (honest signer or not) -/
+theorem recovered_of_verify_small_x (h4 : c.p % 4 = 3) (hall : ∀ P : (W c).Point, (c.n : Int) • P = 0)
+    (bf bf' : Int) (Q : Pt) (hQ : OnCurve c Q) (rQ : Reduced c Q) (z r s : Int) (hz : z ≠ 0)
+    (hv : verify c bf Q z r s = .ok true) (x y : Int) (hc : containsXY c x y = true) (hx0 : 0 ≤ x) (hxp : x < c.p)
+    (hy0 : 0 ≤ y) (hyp : y < c.p) (hR : toPoint c (some (x, y)) = noncePointOf c z r s (toPoint c Q)) (hxn : x < c.n) :
+    ∃ l, possiblePublicPairsForSignature c bf' z r s none = .ok l ∧ Q ∈ l := by
+  have := ok.neZero
+  obtain ⟨b, hb, hiff⟩ := verify_iff ok bf Q hQ rQ (hall _) z r s hz
+  rw [hb] at hv
+  obtain ⟨h1, h2, h3, h4', h5⟩ := hiff.mp (by injection hv)
+  have hr := intCast_ne_zero_of_range r h1 h2
+  have hs := intCast_ne_zero_of_range s h3 h4'
+  have h5' : xModN c (noncePointOf c z r s (toPoint c Q)) = some r := h5
+  rw [← hR, xModN_toPoint_some hc hx0 hxp, Int.emod_eq_of_lt hx0 hxn] at h5'
+  have hxr : x = r := by injection h5'
+  subst hxr
+  refine (mem_recover_iff ok h4 hall bf' z x x s hx0 hxp h1 h2 (Int.emod_eq_of_lt hx0 hxn) Q hQ rQ).mpr
+    ⟨y, hy0, hyp, hc, ?_⟩
+  rw [hR, keyOfNonce_noncePointOf ok z x s hr hs _ (hall _)]
+
+/-- when `r + n ≥ p` (on secp256k1: all but a fraction `2⁻¹²⁷` of the values of `r`) no nonce point has abscissa `r + n`, and
+the verifying keys are exactly the keys recovery returns -/
+theorem verify_iff_recovered_large_r (h4 : c.p % 4 = 3) (hall : ∀ P : (W c).Point, (c.n : Int) • P = 0) (hp2n : c.p ≤ 2 * c.n)
+    (bf bf' : Int) (Q : Pt) (hQ : OnCurve c Q) (rQ : Reduced c Q) (z r s : Int) (hz : z ≠ 0) (hr : (c.p : Int) ≤ r + c.n) :
+    verify c bf Q z r s = .ok true ↔
+      1 ≤ r ∧ r < c.n ∧ 1 ≤ s ∧ s < c.n ∧
+      ∃ l, possiblePublicPairsForSignature c bf' z r s none = .ok l ∧ Q ∈ l := by
+  rw [verify_iff_recovered ok h4 hall hp2n bf bf' Q hQ rQ z r s hz]
+  have hempty : possiblePublicPairsForSignature c bf' z (r + c.n) s none = .ok [] := by
+    unfold possiblePublicPairsForSignature; rw [if_pos (by omega)]
+  constructor
+  · rintro ⟨h1, h2, h3, h4', h | ⟨l, hl, hm⟩⟩
+    · exact ⟨h1, h2, h3, h4', h⟩
+    · rw [hempty] at hl; injection hl with hl; subst hl; simp at hm
+  · rintro ⟨h1, h2, h3, h4', h⟩
+    exact ⟨h1, h2, h3, h4', Or.inl h⟩
+
 end Pycoin.Curve
